@@ -418,7 +418,13 @@ func (srv *server) registerClient(connect *packets.Connect, client *client) (ses
 	srv.statsManager.clientConnected(client.opts.ClientID)
 
 	if oldSession != nil {
-		if !oldSession.IsExpired(now) && !connect.CleanStart {
+		// The session expiry interval runs from the end of the last network connection
+		// (recorded in offlineClients), not from the time the session was created.
+		expired := false
+		if expiredAt, ok := srv.offlineClients[client.opts.ClientID]; ok {
+			expired = now.After(expiredAt)
+		}
+		if !expired && !connect.CleanStart {
 			sessionResume = true
 		}
 		// clean old session
